@@ -335,6 +335,15 @@ class Exec:
                 k = fresh("k", I)
                 st.assume(z3.ForAll([k], z3.Implies(z3.And(0 <= k, k < n), z3.And(arr[k] >= 0, arr[k] < st.alloc))))
             return VList(arr, n, ek)
+        if t.startswith("match:"):
+            # a match object of the given pattern in some text (the parameter of a re.sub callback)
+            from . import regexlib as _RL
+
+            pat_ = ast.literal_eval("b" + repr(t[6:])) if not t[6:].startswith(("b'", 'b"', "rb")) else ast.literal_eval(t[6:])
+            text_ = VBytes(z3.String(name + "_text"))
+            m_ = _RL.single_match(self, pat_, text_, st, "search")
+            st.assume(m_.attrs["_truthy"])
+            return m_
         if t == "json":
             j = z3.Int(name)
             return VJson(j)
